@@ -11,8 +11,9 @@ from ..common import pmap_proc, tlc_retry, write_ndjson, sh, SPEC
 LEVEL = "model_checking"
 
 
-def render(prog, rng, lang="CPP"):
-    """kinds -> text; one line per kind, original indentation seeded at random"""
+def render(prog, rng, lang="CPP", comments=False):
+    """kinds -> text; one line per kind, original indentation seeded at random; comments=True: trailing comments behind
+    lines and comment lines of their own between them (their own placement is not judged, only that of the code lines)"""
     out = []
     n = 0
     stack = []
@@ -73,6 +74,13 @@ def render(prog, rng, lang="CPP"):
         else:
             t = "/* ? */"
         ind = rng.choice(["", " ", "  ", "\t", "    ", "\t\t", "   \t", "        ", "      "])
+        if comments:
+            x = rng.random()
+            if x < 0.12:
+                out.append(rng.choice(["", "  ", "\t\t", "          "]) + rng.choice(["// own line %d", "/* own line %d */"]) % n)
+            x = rng.random()
+            if x < 0.35 and not t.endswith("\\"):
+                t += rng.choice([" ", "  ", "\t", "     "]) + rng.choice(["// c%d", "/* c%d */"]) % n
         out.append(ind + t)
         last = k
     return "\n".join(out) + "\n"
@@ -81,7 +89,7 @@ def render(prog, rng, lang="CPP"):
 def columns(text, tab):
     cols = []
     for line, term in obs.split_lines(text):
-        if line.strip(" \t") == "":
+        if line.strip(" \t") == "" or line.lstrip(" \t").startswith(("// own line", "/* own line")):
             continue
         c = 1
         for ch in line:
@@ -104,10 +112,10 @@ def _job(a):
     obs.write(cfg, cfgt)
     cs = []
     rc = 0
-    for r in range(2):
+    for r in range(3):
         rng = random.Random(seed * 2 + r)
         src = os.path.join(tmp, "i%d_%d.cpp" % (i, r))
-        obs.write(src, render(prog, rng))
+        obs.write(src, render(prog, rng, comments=(r == 2)))
         rc_, so, se = sh([unc, "-c", cfg, "-q", "-l", "CPP", "-f", src], cwd=tmp, timeout=20)
         os.unlink(src)
         if rc_ != 0:
@@ -120,7 +128,7 @@ def _job(a):
         cs.append(c)
     os.unlink(cfg)
     return {"id": "prog|%d" % i, "prog": prog, "o": o, "rc": rc, "c1": cs[0] if rc == 0 else [], "c2": cs[1] if rc == 0 else [],
-            "cfg_text": cfgt, "seed": seed, "tab": extra["tab"]}
+            "c3": cs[2] if rc == 0 else [], "cfg_text": cfgt, "seed": seed, "tab": extra["tab"]}
 
 
 def run(ctx):
@@ -191,8 +199,8 @@ def run(ctx):
             for b in rep["bad"]:
                 kinds = "+".join(sorted(set(e["prog"])))
                 sig = "%s|%s|%s" % (b, ",".join(e["prog"]), json.dumps(e["o"], sort_keys=True))
-                ctx.violation(sig, "%s violated: program %s with %s: columns %s (second rendering %s), closed form %s" % (
-                    b, e["prog"], e["o"], e["c1"], e["c2"], rep.get("expected")),
+                ctx.violation(sig, "%s violated: program %s with %s: columns %s (second rendering %s, rendering with comments %s), closed form %s" % (
+                    b, e["prog"], e["o"], e["c1"], e["c2"], e["c3"], rep.get("expected")),
                     {"kind": "c18", "prog": e["prog"], "cfg_text": e["cfg_text"], "seed": e["seed"], "tab": e["tab"], "o": e["o"]})
             for dn in rep["drift"]:
                 ctx.drift.append({"module": "Indent", "kind": dn, "prog": e["prog"], "o": e["o"], "observed": e["c1"], "expected": rep.get("expected")})
@@ -220,9 +228,9 @@ def replay(path):
     try:
         cfg = os.path.join(d, "r.cfg")
         obs.write(cfg, r["cfg_text"])
-        for k in range(2):
+        for k in range(3):
             src = os.path.join(d, "r%d.cpp" % k)
-            obs.write(src, render(r["prog"], random.Random(r["seed"] * 2 + k)))
+            obs.write(src, render(r["prog"], random.Random(r["seed"] * 2 + k), comments=(k == 2)))
             rc, so, se = sh([unc, "-c", cfg, "-q", "-l", "CPP", "-f", src])
             print("--- rendering %d (rc=%d), columns %s" % (k, rc, columns(obs.decode(so), r["tab"])))
             print(so.decode("latin-1"))
